@@ -7,9 +7,13 @@ Import ListNotations.
 Open Scope N_scope.
 
 Section RT.
-  Variables (g : generics) (c : conv) (u : universe).
+  Variables (g : generics) (fac : dict_factory) (c : conv) (u : universe).
 
   (* ---------------------------------------------------------------- the encoding, as a function of the value *)
+  (* entries the dictionary factory drops *)
+  Definition drop (j : jvalue) : bool :=
+    match fac, j with FFilterNone, JNull => true | _, _ => false end.
+
   Definition jleaf (var : xvar) (p : prim) : jvalue :=
     match encode_leaf c u (v_format var) p with Ok j => j | Err _ => JNull end.
 
@@ -32,7 +36,8 @@ Section RT.
                       | [] => []
                       | (n, x) :: r =>
                           match var_named vars n with
-                          | Some var => (v_local_name var, jenc (Some var) x) :: jf r
+                          | Some var => if drop (jenc (Some var) x) then jf r
+                                        else (v_local_name var, jenc (Some var) x) :: jf r
                           | None => jf r
                           end
                       end) fs)
@@ -48,7 +53,8 @@ Section RT.
 
   Definition jfields (vars : list xvar) (fs : list (str * value)) : list (str * jvalue) :=
     flat_map (fun nx => match var_named vars (fst nx) with
-                        | Some var => [(v_local_name var, jenc (Some var) (snd nx))]
+                        | Some var => if drop (jenc (Some var) (snd nx)) then []
+                                      else [(v_local_name var, jenc (Some var) (snd nx))]
                         | None => []
                         end) fs.
 
@@ -57,7 +63,8 @@ Section RT.
   Proof.
     intros Hm. cbn. rewrite Hm. f_equal. unfold jfields.
     induction fs as [|[n x] fs IH]; [reflexivity|]. cbn.
-    destruct (var_named (get_all_vars meta) n); cbn; rewrite IH; reflexivity.
+    destruct (var_named (get_all_vars meta) n) as [var|]; cbn; [|exact IH].
+    destruct (drop _); cbn; rewrite IH; reflexivity.
   Qed.
 
   Lemma jenc_obj_any ov cl fs : jenc ov (VObj cl fs) = jenc None (VObj cl fs).
@@ -89,20 +96,36 @@ Section RT.
 
   Lemma jfields_by_vars fs vars :
     map fst fs = map v_name vars -> distinct_keys (map v_name vars) = true ->
-    jfields vars fs = map (fun var => (v_local_name var, jenc (Some var) (field_of fs var))) vars.
+    jfields vars fs = map (fun var => (v_local_name var, jenc (Some var) (field_of fs var)))
+                          (filter (fun var => negb (drop (jenc (Some var) (field_of fs var)))) vars).
   Proof.
     intros Hn Hd. rewrite (fs_by_vars fs vars Hn Hd) at 1. unfold jfields.
-    rewrite flat_map_concat_map, map_map.
-    rewrite <- (concat_map_singleton (fun var => (v_local_name var, jenc (Some var) (field_of fs var))) vars).
-    f_equal. apply map_ext_in. intros var Hin. cbn.
-    rewrite var_named_self by assumption. reflexivity.
+    assert (G : forall l, (forall var, In var l -> In var vars) ->
+                flat_map (fun nx => match var_named vars (fst nx) with
+                                    | Some var => if drop (jenc (Some var) (snd nx)) then []
+                                                  else [(v_local_name var, jenc (Some var) (snd nx))]
+                                    | None => []
+                                    end) (map (fun var => (v_name var, field_of fs var)) l)
+                = map (fun var => (v_local_name var, jenc (Some var) (field_of fs var)))
+                      (filter (fun var => negb (drop (jenc (Some var) (field_of fs var)))) l)).
+    { induction l as [|var l IH]; intros Hl; [reflexivity|]. cbn [map flat_map filter fst snd].
+      rewrite var_named_self by (try assumption; apply Hl; left; reflexivity).
+      rewrite IH by (intros w Hw; apply Hl; right; exact Hw).
+      destruct (drop (jenc (Some var) (field_of fs var))); reflexivity. }
+    apply G. auto.
+  Qed.
+
+  Lemma filter_all {A} (p : A -> bool) l : (forall x, In x l -> p x = true) -> filter p l = l.
+  Proof.
+    induction l as [|x l IH]; intros H; cbn; [reflexivity|].
+    rewrite (H x (or_introl eq_refl)), IH by (intros y Hy; apply H; right; exact Hy). reflexivity.
   Qed.
 
   (* ---------------------------------------------------------------- the guard, unfolded *)
   Definition d1_item (f : nat) (var : xvar) (x : value) : bool :=
     match x with
     | VP p => existsb (ptype_eqb (prim_type p)) (v_types var) && leaf_ok c u var p
-    | VObj c' _ => opt_eqb N.eqb (v_clazz var) (Some c') && d1_value g c u f x
+    | VObj c' _ => opt_eqb N.eqb (v_clazz var) (Some c') && d1_value g fac c u f x
     | _ => false
     end.
   Definition d1_token (var : xvar) (x : value) : bool :=
@@ -133,15 +156,15 @@ Section RT.
     d1o_names : map fst fs = map v_name (get_all_vars meta);
     d1o_dnames : distinct_keys (map v_name (get_all_vars meta)) = true;
     d1o_dkeys : distinct_keys (map v_local_name (get_all_vars meta)) = true;
-    d1o_nder : same_keys (map v_local_name (get_all_vars meta)) DERIVED_KEYS = false;
-    d1o_nany : same_keys (map v_local_name (get_all_vars meta)) ANY_KEYS = false;
+    d1o_nder : generic_keys_ok fac (map v_local_name (get_all_vars meta)) DERIVED_KEYS = true;
+    d1o_nany : generic_keys_ok fac (map v_local_name (get_all_vars meta)) ANY_KEYS = true;
     d1o_vars : forall var, In var (get_all_vars meta) -> d1_var u var = true;
     d1o_fields : forall var, In var (get_all_vars meta) ->
                  exists x, assoc (v_name var) fs = Some x /\ d1_field f var x = true
   }.
 
   Lemma d1_value_inv f cl fs :
-    d1_value g c u (S f) (VObj cl fs) = true -> exists meta, d1_obj f cl fs meta.
+    d1_value g fac c u (S f) (VObj cl fs) = true -> exists meta, d1_obj f cl fs meta.
   Proof.
     intros H. cbn [d1_value] in H. destruct (u_meta u cl) as [meta|] eqn:Hm; [|discriminate].
     exists meta.
@@ -203,7 +226,34 @@ Section RT.
   Proof. intros H. destruct (d1_var_inv var H). unfold v_wrapper. rewrite dv_wrapper0. reflexivity. Qed.
 
   (* ---------------------------------------------------------------- encoder *)
-  Notation erun' := (erun g FDict false c u).
+  Notation erun' := (erun g fac false c u).
+
+  Lemma filter_map {A B} (p : B -> bool) (h : A -> B) l : filter p (map h l) = map h (filter (fun x => p (h x)) l).
+  Proof. induction l as [|x l IH]; cbn; [reflexivity|]. rewrite IH. destruct (p (h x)); reflexivity. Qed.
+
+  Lemma existsb_filter_false {A} (h : A -> str) (p : A -> bool) k l :
+    existsb (str_eqb k) (map h l) = false -> existsb (str_eqb k) (map h (filter p l)) = false.
+  Proof.
+    induction l as [|x l IH]; cbn; intros H; [reflexivity|].
+    apply orb_false_iff in H as [H1 H2]. destruct (p x); cbn; [rewrite H1|]; auto.
+  Qed.
+
+  Lemma distinct_filter {A} (h : A -> str) (p : A -> bool) l :
+    distinct_keys (map h l) = true -> distinct_keys (map h (filter p l)) = true.
+  Proof.
+    induction l as [|x l IH]; cbn; intros H; [reflexivity|].
+    apply andb_true_iff in H as [H1 H2]. destruct (p x); cbn; [|auto].
+    apply negb_true_iff in H1. rewrite (existsb_filter_false h p _ _ H1). cbn. auto.
+  Qed.
+
+  Lemma apply_factory_eq pairs :
+    apply_factory fac pairs = JDict (dict_of (filter (fun kv => negb (drop (snd kv))) pairs)).
+  Proof.
+    unfold apply_factory, drop. destruct fac.
+    - rewrite filter_all; [reflexivity|]. intros; reflexivity.
+    - f_equal. f_equal. induction pairs as [|[k j] pairs IH]; cbn; [reflexivity|].
+      rewrite IH. destruct j; reflexivity.
+  Qed.
 
   Lemma enc_leaf var p : leaf_ok c u var p = true -> encode_leaf c u (v_format var) p = Ok (jleaf var p).
   Proof.
@@ -221,7 +271,7 @@ Section RT.
 
   Section EncStep.
     Variable f : nat.
-    Hypothesis IH : forall F v, (4 * f <= F)%nat -> d1_value g c u f v = true ->
+    Hypothesis IH : forall F v, (4 * f <= F)%nat -> d1_value g fac c u f v = true ->
                                 erun' F (ENextValue v) = Ok (jenc None v).
 
     Lemma enc_item var x F :
@@ -281,7 +331,7 @@ Section RT.
     Qed.
   End EncStep.
 
-  Lemma enc_obj : forall n F v, (4 * n <= F)%nat -> d1_value g c u n v = true ->
+  Lemma enc_obj : forall n F v, (4 * n <= F)%nat -> d1_value g fac c u n v = true ->
                                 erun' F (ENextValue v) = Ok (jenc None v).
   Proof.
     induction n as [|f IH]; intros F v HF Hd; [discriminate Hd|].
@@ -289,8 +339,8 @@ Section RT.
     destruct (d1_value_inv f cl fs Hd) as [meta O]. destruct O.
     destruct F as [|F]; [lia|]. cbn [erun as_object]. rewrite d1o_meta0.
     rewrite (concatM_ok _ (fun var => [(v_local_name var, jenc (Some var) (field_of fs var))]) (get_all_vars meta)).
-    - cbn [gbind]. rewrite concat_map_singleton. unfold apply_factory.
-      rewrite dict_of_distinct by (rewrite map_map; exact d1o_dkeys0).
+    - cbn [gbind]. rewrite concat_map_singleton, apply_factory_eq, filter_map. cbn [snd].
+      rewrite dict_of_distinct by (rewrite map_map; apply (distinct_filter v_local_name); exact d1o_dkeys0).
       rewrite (jenc_obj cl fs meta d1o_meta0), jfields_by_vars by assumption. reflexivity.
     - intros var Hin. destruct (d1o_fields0 var Hin) as [x [Hx Hfx]].
       cbn [getattr]. rewrite Hx. cbn [gbind]. rewrite andb_false_r. cbn [gbind].
@@ -416,6 +466,38 @@ Section RT.
     rewrite E, str_eqb_refl in F. discriminate.
   Qed.
 
+  Lemma forallb_false_mono {A} (p q : A -> bool) l :
+    forallb p l = false -> (forall x, q x = true -> p x = true) -> forallb q l = false.
+  Proof.
+    induction l as [|x l IH]; cbn; intros H Hpq; [discriminate|].
+    apply andb_false_iff in H as [H|H].
+    - destruct (q x) eqn:E; [rewrite (Hpq x E) in H; discriminate|reflexivity].
+    - rewrite (IH H Hpq). apply andb_false_r.
+  Qed.
+
+  Lemma existsb_filter_sub {A} (h : A -> str) (p : A -> bool) k l :
+    existsb (str_eqb k) (map h (filter p l)) = true -> existsb (str_eqb k) (map h l) = true.
+  Proof.
+    induction l as [|x l IH]; cbn; intros H; [discriminate|].
+    destruct (p x); cbn in H.
+    - apply orb_true_iff in H as [H|H]; [rewrite H; reflexivity|rewrite (IH H); apply orb_true_r].
+    - rewrite (IH H). apply orb_true_r.
+  Qed.
+
+  (* the keys of an encoded object are never mistaken for a generic dictionary *)
+  Lemma keys_not_generic vars fs ks :
+    map fst fs = map v_name vars -> distinct_keys (map v_name vars) = true ->
+    generic_keys_ok fac (map v_local_name vars) ks = true ->
+    same_keys (map fst (jfields vars fs)) ks = false.
+  Proof.
+    intros Hn Hd Hg. rewrite jfields_by_vars, map_map by assumption. cbn [fst].
+    unfold generic_keys_ok in Hg. unfold drop. destruct fac.
+    - rewrite filter_all by (intros; reflexivity). apply negb_true_iff in Hg. exact Hg.
+    - apply negb_true_iff in Hg. unfold same_keys. apply andb_false_iff. right.
+      apply (forallb_false_mono _ _ _ Hg). intros k Hk.
+      exact (existsb_filter_sub (fun x : xvar => v_local_name x) _ k vars Hk).
+  Qed.
+
   (* ---------------------------------------------------------------- decoder *)
   Variable strict : bool.
   Notation drun' := (drun g c u strict).
@@ -480,7 +562,7 @@ Section RT.
 
   Section DecStep.
     Variable f : nat.
-    Hypothesis IH : forall F cl fs, (4 * f <= F)%nat -> d1_value g c u f (VObj cl fs) = true ->
+    Hypothesis IH : forall F cl fs, (4 * f <= F)%nat -> d1_value g fac c u f (VObj cl fs) = true ->
                                     drun' F (DBindDataclass (jenc None (VObj cl fs)) cl) = Ok (VObj cl fs).
 
     (* one item (primitive or object) under DBindValue; `r` = recursive *)
@@ -507,9 +589,8 @@ Section RT.
         destruct (d1_value_inv f' c0 fields Hd) as [meta' O]. destruct O.
         rewrite jenc_obj_any, (jenc_obj c0 fields meta' d1o_meta0).
         rewrite !keys_are_same.
-        assert (Hk : map fst (jfields (get_all_vars meta') fields) = map v_local_name (get_all_vars meta')).
-        { rewrite jfields_by_vars by assumption. rewrite map_map. reflexivity. }
-        rewrite Hk, d1o_nany0, d1o_nder0.
+        rewrite (keys_not_generic _ _ ANY_KEYS d1o_names0 d1o_dnames0 d1o_nany0).
+        rewrite (keys_not_generic _ _ DERIVED_KEYS d1o_names0 d1o_dnames0 d1o_nder0).
         cbn [drun]. unfold v_is_clazz_union. rewrite Ek.
         destruct dv_types0 as [t [Hty [_ [Hcl Hncl]]]]. rewrite Hty. cbn [length N.of_nat N.ltb N.compare Pos.compare Pos.compare_cont].
         rewrite dv_elements0. cbn [nonempty]. rewrite dv_any0, Hkw. cbn [orb].
@@ -603,26 +684,71 @@ Section RT.
     - rewrite map_app. cbn [map fst]. cbn [map] in Hd. rewrite <- app_assoc. exact Hd.
   Qed.
 
-  Lemma dec_obj : forall n F cl fs, (4 * n <= F)%nat -> d1_value g c u n (VObj cl fs) = true ->
+  Lemma assoc_notin {A} (X : xvar -> A) (keep : xvar -> bool) k l :
+    existsb (str_eqb k) (map v_name l) = false ->
+    assoc k (map (fun w => (v_name w, X w)) (filter keep l)) = None.
+  Proof.
+    induction l as [|w l IHl]; cbn; intros H; [reflexivity|].
+    apply orb_false_iff in H as [H1 H2]. destruct (keep w); cbn; [rewrite H1|]; auto.
+  Qed.
+
+  Lemma assoc_filter_none {A} (X : xvar -> A) (keep : xvar -> bool) vars var :
+    distinct_keys (map v_name vars) = true -> In var vars -> keep var = false ->
+    assoc (v_name var) (map (fun w => (v_name w, X w)) (filter keep vars)) = None.
+  Proof.
+    induction vars as [|w vars IHv]; cbn; intros Hd Hin Hk; [contradiction|].
+    apply andb_true_iff in Hd as [Hw Hd]. apply negb_true_iff in Hw.
+    destruct Hin as [->|Hin].
+    - rewrite Hk. apply assoc_notin. exact Hw.
+    - destruct (keep w); cbn; [|auto].
+      destruct (str_eqb_spec (v_name var) (v_name w)) as [E|_]; [|auto].
+      pose proof (existsb_str_false _ _ Hw (v_name var) (in_map v_name _ _ Hin)) as F.
+      rewrite E, str_eqb_refl in F. discriminate.
+  Qed.
+
+  Lemma jenc_nonnull f var x :
+    d1_field f var x = true -> jenc (Some var) x = JNull -> x = VNone.
+  Proof.
+    unfold d1_field. intros Hf Hj.
+    destruct (v_factory var), (v_tokens_factory var), x as [| |[|] l| | | |];
+      try discriminate Hf; try discriminate Hj; try reflexivity.
+    - cbn in Hf. apply andb_true_iff in Hf as [_ Hl]. destruct (leaf_facts var p Hl) as [Hs _].
+      cbn [jenc] in Hj. rewrite Hj in Hs. discriminate Hs.
+    - cbn in Hf. apply andb_true_iff in Hf as [_ Hd]. destruct f as [|f']; [discriminate Hd|].
+      destruct (d1_value_inv f' c0 fields Hd) as [m' O']. destruct O'.
+      rewrite jenc_obj_any, (jenc_obj c0 fields m') in Hj by assumption. discriminate Hj.
+  Qed.
+
+  Lemma dec_obj : forall n F cl fs, (4 * n <= F)%nat -> d1_value g fac c u n (VObj cl fs) = true ->
                                     drun' F (DBindDataclass (jenc None (VObj cl fs)) cl) = Ok (VObj cl fs).
   Proof.
     induction n as [|f IH]; intros F cl fs HF Hd; [discriminate Hd|].
     destruct (d1_value_inv f cl fs Hd) as [meta O]. destruct O.
     destruct F as [|F]; [lia|].
     rewrite (jenc_obj cl fs meta d1o_meta0). cbn [drun].
-    rewrite keys_are_same.
-    assert (Hj : jfields (get_all_vars meta) fs
-                 = map (fun var => (v_local_name var, jenc (Some var) (field_of fs var))) (get_all_vars meta))
-      by (apply jfields_by_vars; assumption).
-    assert (Hk : map fst (jfields (get_all_vars meta) fs) = map v_local_name (get_all_vars meta))
-      by (rewrite Hj, map_map; reflexivity).
-    rewrite Hk, d1o_nder0, d1o_meta0. rewrite Hj.
+    rewrite keys_are_same, (keys_not_generic _ _ DERIVED_KEYS d1o_names0 d1o_dnames0 d1o_nder0), d1o_meta0.
+    rewrite jfields_by_vars by assumption.
+    set (keep := fun var => negb (drop (jenc (Some var) (field_of fs var)))).
     rewrite (bind_params_ok _ meta (get_all_vars meta) (fun var => jenc (Some var) (field_of fs var)) (field_of fs)).
     - cbn [gbind app]. unfold construct. rewrite d1o_any0, d1o_der0. f_equal. f_equal.
       etransitivity; [|symmetry; apply (fs_by_vars fs (get_all_vars meta) d1o_names0 d1o_dnames0)].
       apply map_ext_in. intros var Hin. f_equal.
-      rewrite (assoc_vars (field_of fs)) by assumption. reflexivity.
-    - intros var Hin. destruct (d1o_fields0 var Hin) as [x [Hx Hfx]].
+      destruct (keep var) eqn:Ek.
+      + rewrite (assoc_vars (field_of fs)); [reflexivity| |].
+        * apply (distinct_filter v_name). exact d1o_dnames0.
+        * apply filter_In. split; assumption.
+      + rewrite (assoc_filter_none (field_of fs) keep) by assumption.
+        destruct (d1o_fields0 var Hin) as [x [Hx Hfx]].
+        assert (Efo : field_of fs var = x) by (unfold field_of; rewrite Hx; reflexivity).
+        unfold keep in Ek. apply negb_false_iff in Ek. rewrite Efo in Ek. unfold drop in Ek.
+        destruct fac; [discriminate Ek|].
+        destruct (jenc (Some var) x) eqn:Ej; try discriminate Ek.
+        pose proof (jenc_nonnull f var x Hfx Ej) as ->. rewrite Efo.
+        unfold d1_field in Hfx. unfold default_value.
+        destruct (v_factory var), (v_tokens_factory var); try discriminate Hfx.
+        destruct (v_default var); try discriminate Hfx. reflexivity.
+    - intros var Hin0. apply filter_In in Hin0 as [Hin _].
+      destruct (d1o_fields0 var Hin) as [x [Hx Hfx]].
       pose proof (d1o_vars0 var Hin) as Hv. destruct (d1_var_inv var Hv).
       assert (Efo : field_of fs var = x) by (unfold field_of; rewrite Hx; reflexivity).
       split; [|split; [exact dv_init0|split; [apply d1_var_wrapper; exact Hv|]]].
@@ -638,7 +764,7 @@ Section RT.
                     destruct (d1_value_inv f' c0 fields Hdx) as [m' O']; destruct O';
                     rewrite (jenc_obj c0 fields m') by assumption; reflexivity).
       + rewrite Efo. apply (dec_field f IH meta var x F Hv Hfx). lia.
-    - cbn [map app]. exact d1o_dnames0.
+    - cbn [map app]. apply (distinct_filter v_name). exact d1o_dnames0.
   Qed.
 
 End RT.
@@ -676,12 +802,21 @@ Proof.
   pose proof (H x (or_introl eq_refl)). pose proof (IH (fun y Hy => H y (or_intror Hy))). lia.
 Qed.
 
+Lemma list_max_filter {A} (f h : A -> nat) (keep : A -> bool) l :
+  (forall x, In x l -> if keep x then (f x <= h x)%nat else f x = O) ->
+  (list_max (map f l) <= list_max (map h (filter keep l)))%nat.
+Proof.
+  induction l as [|x l IH]; intros H; [cbn; lia|].
+  pose proof (H x (or_introl eq_refl)) as Hx. pose proof (IH (fun y Hy => H y (or_intror Hy))) as Hl.
+  cbn [map filter]. destruct (keep x); cbn [map]; unfold list_max in *; cbn [fold_right]; lia.
+Qed.
+
 Section Depth.
-  Variables (g : generics) (c : conv) (u : universe).
+  Variables (g : generics) (fac : dict_factory) (c : conv) (u : universe).
 
   Lemma depth_item f var x :
-    (forall v, d1_value g c u f v = true -> (vdepth v <= jdepth (jenc c u None v))%nat) ->
-    d1_item g c u f var x = true -> (vdepth x <= jdepth (jenc c u (Some var) x))%nat.
+    (forall v, d1_value g fac c u f v = true -> (vdepth v <= jdepth (jenc fac c u None v))%nat) ->
+    d1_item g fac c u f var x = true -> (vdepth x <= jdepth (jenc fac c u (Some var) x))%nat.
   Proof.
     intros IH Hi. destruct x; try discriminate Hi.
     - cbn. lia.
@@ -690,27 +825,31 @@ Section Depth.
 
   Lemma depth_list var l (P : value -> bool) :
     forallb P l = true ->
-    (forall x, P x = true -> (vdepth x <= jdepth (jenc c u (Some var) x))%nat) ->
-    (vdepth (VList false l) <= jdepth (jenc c u (Some var) (VList false l)))%nat.
+    (forall x, P x = true -> (vdepth x <= jdepth (jenc fac c u (Some var) x))%nat) ->
+    (vdepth (VList false l) <= jdepth (jenc fac c u (Some var) (VList false l)))%nat.
   Proof.
     intros Hl Hx. rewrite jenc_list, vdepth_list, jdepth_list, map_map.
     apply le_n_S. apply list_max_mono. intros x Hin. apply Hx. rewrite forallb_forall in Hl. apply Hl. exact Hin.
   Qed.
 
-  Lemma depth_token var x : d1_token c u var x = true -> (vdepth x <= jdepth (jenc c u (Some var) x))%nat.
+  Lemma depth_token var x : d1_token c u var x = true -> (vdepth x <= jdepth (jenc fac c u (Some var) x))%nat.
   Proof. destruct x; try discriminate. intros _. cbn. lia. Qed.
 
-  Lemma depth_obj : forall n v, d1_value g c u n v = true -> (vdepth v <= jdepth (jenc c u None v))%nat.
+  Lemma depth_obj : forall n v, d1_value g fac c u n v = true -> (vdepth v <= jdepth (jenc fac c u None v))%nat.
   Proof.
     induction n as [|f IH]; intros v Hd; [discriminate Hd|].
     destruct v as [| | |cl fs| | |]; try discriminate Hd.
-    destruct (d1_value_inv g c u f cl fs Hd) as [meta O]. destruct O.
-    rewrite (jenc_obj c u cl fs meta d1o_meta0), (jfields_by_vars c u fs (get_all_vars meta)) by assumption.
+    destruct (d1_value_inv g fac c u f cl fs Hd) as [meta O]. destruct O.
+    rewrite (jenc_obj fac c u cl fs meta d1o_meta0), (jfields_by_vars fac c u fs (get_all_vars meta)) by assumption.
     rewrite (fs_by_vars fs (get_all_vars meta) d1o_names0 d1o_dnames0) at 1.
     rewrite vdepth_obj, jdepth_dict, !map_map. cbn [snd].
-    apply le_n_S. apply list_max_mono. intros var Hin.
+    apply le_n_S. apply list_max_filter. intros var Hin.
     destruct (d1o_fields0 var Hin) as [x [Hx Hfx]].
     assert (Efo : field_of fs var = x) by (unfold field_of; rewrite Hx; reflexivity). rewrite Efo.
+    destruct (negb (drop fac (jenc fac c u (Some var) x))) eqn:Ek.
+    2:{ apply negb_false_iff in Ek. unfold drop in Ek. destruct fac; [discriminate Ek|].
+        destruct (jenc FFilterNone c u (Some var) x) eqn:Ej; try discriminate Ek.
+        rewrite (jenc_nonnull g FFilterNone c u f var x Hfx Ej). reflexivity. }
     unfold d1_field in Hfx.
     destruct (v_factory var), (v_tokens_factory var).
     - destruct x as [| |[|] l| | | |]; try discriminate Hfx.
@@ -724,23 +863,35 @@ Section Depth.
   Qed.
 End Depth.
 
-(* ================================================================ the theorem, default dictionary factory *)
-Theorem dict_roundtrip (g : generics) (c : conv) (u : universe) (cl : cls) (fs : list (str * value)) :
-  d1_value g c u (S (vdepth (VObj cl fs))) (VObj cl fs) = true ->
-  exists j, encode g FDict false c u (VObj cl fs) = Ok j
+(* ================================================================ the theorems *)
+(* both dictionary factories; inside the slice a None only sits where the default is None, so
+   "absent keys decode to the field defaults" gives the instance back *)
+Theorem dict_roundtrip_factory (g : generics) (fac : dict_factory) (c : conv) (u : universe) (cl : cls) (fs : list (str * value)) :
+  d1_value g fac c u (S (vdepth (VObj cl fs))) (VObj cl fs) = true ->
+  exists j, encode g fac false c u (VObj cl fs) = Ok j
             /\ decode g c u cl false j = Ok (VObj cl fs).
 Proof.
-  intros Hd. exists (jenc c u None (VObj cl fs)). split.
+  intros Hd. exists (jenc fac c u None (VObj cl fs)). split.
   - unfold encode, encode_fuel.
     remember (6 * S (vdepth (VObj cl fs)))%nat as F eqn:EF.
     destruct F as [|F]; [lia|]. cbn [erun].
-    apply (enc_obj g c u (S (vdepth (VObj cl fs)))); [lia|exact Hd].
-  - pose proof (depth_obj g c u _ _ Hd) as Hdepth.
-    destruct (d1_value_inv g c u _ cl fs Hd) as [meta O]. destruct O.
-    unfold decode. rewrite (jenc_obj c u cl fs meta d1o_meta0).
-    rewrite <- (jenc_obj c u cl fs meta d1o_meta0).
-    change (match jenc c u None (VObj cl fs) with JDict _ => _ | _ => _ end) with
-        (drun g c u false (decode_fuel (jenc c u None (VObj cl fs))) (DBindDataclass (jenc c u None (VObj cl fs)) cl)).
-    apply (dec_obj g c u false (S (vdepth (VObj cl fs)))); [|exact Hd].
+    apply (enc_obj g fac c u (S (vdepth (VObj cl fs)))); [lia|exact Hd].
+  - pose proof (depth_obj g fac c u _ _ Hd) as Hdepth.
+    destruct (d1_value_inv g fac c u _ cl fs Hd) as [meta O]. destruct O.
+    unfold decode. rewrite (jenc_obj fac c u cl fs meta d1o_meta0).
+    rewrite <- (jenc_obj fac c u cl fs meta d1o_meta0).
+    change (match jenc fac c u None (VObj cl fs) with JDict _ => _ | _ => _ end) with
+        (drun g c u false (decode_fuel (jenc fac c u None (VObj cl fs))) (DBindDataclass (jenc fac c u None (VObj cl fs)) cl)).
+    apply (dec_obj g fac c u false (S (vdepth (VObj cl fs)))); [|exact Hd].
     unfold decode_fuel. lia.
 Qed.
+
+Theorem dict_roundtrip (g : generics) (c : conv) (u : universe) (cl : cls) (fs : list (str * value)) :
+  d1_value g FDict c u (S (vdepth (VObj cl fs))) (VObj cl fs) = true ->
+  exists j, encode g FDict false c u (VObj cl fs) = Ok j /\ decode g c u cl false j = Ok (VObj cl fs).
+Proof. apply dict_roundtrip_factory. Qed.
+
+Theorem dict_roundtrip_filter_none (g : generics) (c : conv) (u : universe) (cl : cls) (fs : list (str * value)) :
+  d1_value g FFilterNone c u (S (vdepth (VObj cl fs))) (VObj cl fs) = true ->
+  exists j, encode g FFilterNone false c u (VObj cl fs) = Ok j /\ decode g c u cl false j = Ok (VObj cl fs).
+Proof. apply dict_roundtrip_factory. Qed.
